@@ -31,6 +31,7 @@ def full_alphabet(cA, cB):
     A = [[['yield', 0.25]], [['yield', 0.5]], [['yield', 1.0]],
          [['log']],
          [['send', 0.25, 'TAG']], [['send', None, 'TAG']],
+         [['sendb', 0.25, 0.5, 'TAG']], [['sendb', 0, 0.25, 'TAG']],
          [['play', 'B', cB, 0]],
          [['pause', 'B']], [['resume', 'B']], [['stop', 'B']],
          [['wait', 'c0']],
@@ -203,6 +204,9 @@ def observe(prog, res, mode):
             per.setdefault(e[1], []).append(['send', e[3]])
             sendlog[e[3]] = e[5]
     sends = {}
+
+    def key(addr, tag):
+        return str(tag) if addr == '/t' else f'{addr}{tag}'
     if mode == 'rt':
         for now, hexd in res['sent']:
             pkt = osc10.decode(bytes.fromhex(hexd))
@@ -212,12 +216,28 @@ def observe(prog, res, mode):
                     t = sendlog.get(tag)
                 else:
                     t = (tt - c07.ntp(0.0)) / 2 ** 32
-                sends[str(tag)] = t
-    else:
-        for b in res['score']:
-            if b[1][0] == '/t':
-                sends[str(b[1][1])] = b[0]
-    return {'per': per, 'sends': sends, 'status': res['status']}
+                sends[key(addr, tag)] = t
+        return {'per': per, 'sends': sends, 'status': res['status']}
+    # NRT: what is rendered is the binary score - every message of every
+    # (nested) bundle of it, with the time tag of its enclosing bundle
+    raw = bytes.fromhex(res['raw'])
+    i = 0
+    try:
+        while i < len(raw):
+            n = int.from_bytes(raw[i:i + 4], 'big')
+            pkt = osc10.decode(raw[i + 4:i + 4 + n])
+            i += 4 + n
+            for tt, addr, args in osc10.flatten(pkt):
+                if addr in ('/t', '/u'):
+                    sends[key(addr, args[0][1])] = tt / 2 ** 32
+    except Exception as e:      # an unreadable score is a difference as well
+        sends['unreadable-score'] = repr(e)[:100]
+    lst = {}
+    for b in res['score']:
+        if b[1][0] == '/t':
+            lst[str(b[1][1])] = b[0]
+    return {'per': per, 'sends': sends, 'sends_list': lst,
+            'status': res['status']}
 
 
 def compare(o_nrt, o_rt):
@@ -241,6 +261,12 @@ def compare(o_nrt, o_rt):
             dis.append((kind, {'nrt': ea}, {'rt': eb},
                         f'{who} event {n}: nrt {a} / rt {b}'))
     if not dis:
+        sl = o_nrt.get('sends_list', {})
+        for tag, t in sl.items():
+            tr = o_rt['sends'].get(tag)
+            if tr is None or abs(t - tr) > 2.0 ** -31:
+                dis.append(('modes-differ-bundle-time', t, tr,
+                            f'tag {tag} (score list)'))
         sa, sb = o_nrt['sends'], o_rt['sends']
         if set(sa) != set(sb):
             dis.append(('modes-differ-bundles-sent', sorted(sa), sorted(sb),
